@@ -16,6 +16,7 @@ import (
 )
 
 type modGraph struct {
+	inProgress map[*ssa.Function]bool
 	p        *Program
 	succ     map[*ssa.Function][]*ssa.Function
 	addrTake map[string][]*ssa.Function // signature string -> module functions used as values
@@ -118,6 +119,9 @@ func (g *modGraph) methodsOf(t types.Type, iface *types.Interface) []*ssa.Functi
 		ms := g.p.SSA.MethodSets.MethodSet(tt)
 		for i := 0; i < ms.Len(); i++ {
 			sel := ms.At(i)
+			if !sel.Obj().Exported() {
+				continue // code outside the module cannot name, and so cannot call, an unexported method
+			}
 			if iface != nil && iface.NumMethods() > 0 {
 				found := false
 				for j := 0; j < iface.NumMethods(); j++ {
@@ -257,6 +261,14 @@ func (g *modGraph) Callees(f *ssa.Function) []*ssa.Function {
 	if s, ok := g.succ[f]; ok {
 		return s
 	}
+	if g.inProgress == nil {
+		g.inProgress = map[*ssa.Function]bool{}
+	}
+	if g.inProgress[f] {
+		return nil
+	}
+	g.inProgress[f] = true
+	defer delete(g.inProgress, f)
 	set := map[*ssa.Function]bool{}
 	var out []*ssa.Function
 	add := func(c *ssa.Function) {
@@ -288,6 +300,15 @@ func (g *modGraph) Callees(f *ssa.Function) []*ssa.Function {
 			for _, c := range callees {
 				if fnInModule(c) {
 					add(c)
+					continue
+				}
+				// an instantiated generic of the standard library (slices.Contains,
+				// slices.SortFunc, maps.Keys …) has a body in this program: what it calls back
+				// is read off that body instead of being guessed from the argument types
+				if len(c.TypeArgs()) > 0 && len(c.Blocks) > 0 {
+					for _, cb := range g.Callees(c) {
+						add(cb)
+					}
 					continue
 				}
 				// non-module callee: callbacks
